@@ -17,6 +17,8 @@ def main(argv=None):
     r.add_argument("--workers", type=int, default=None)
     r.add_argument("--wall-cap", type=float, default=None)
     r.add_argument("--no-evidence", action="store_true")
+    r.add_argument("--first-index", type=int, default=0)
+    r.add_argument("--no-optimized-pass", action="store_true")
     p = sub.add_parser("replay")
     p.add_argument("path")
     sub.add_parser("setup")
@@ -38,9 +40,22 @@ def main(argv=None):
         from vf import runner
         return runner.run_check(args.prop, args.tier, seed, runs=args.runs,
                                 workers=args.workers, wall_cap=args.wall_cap,
-                                write_evidence=not args.no_evidence)
+                                write_evidence=not args.no_evidence,
+                                first_index=args.first_index,
+                                optimized_pass=not args.no_optimized_pass)
     if args.cmd == "replay":
         from vf import runner
+        import json as _json
+        import subprocess as _sp
+        try:
+            flags = _json.load(open(args.path)).get("python_flags") or []
+        except Exception:
+            flags = []
+        if "-O" in flags and not sys.flags.optimize:
+            # found under an optimised interpreter: replay under the same flags
+            p = _sp.run([common.PYTHON, "-O", "-m", "vf.cli", "replay", args.path],
+                        cwd=common.VERIF_DIR)
+            return p.returncode
         rep, res = runner.replay_file(args.path)
         if res["status"] == "violation" and not res.get("finding"):
             return 1
